@@ -564,6 +564,22 @@ class FileStorage(Storage):
         return tempstore.create()
 
 
+class RamLock(object):
+    """In-memory lock with the same interface as
+    :class:`whoosh.util.filelock.FileLock`: ``acquire()`` does not block
+    unless asked to, so writers honour their timeout and raise ``LockError``.
+    """
+
+    def __init__(self):
+        self._lock = Lock()
+
+    def acquire(self, blocking=False):
+        return self._lock.acquire(blocking)
+
+    def release(self):
+        self._lock.release()
+
+
 class RamStorage(Storage):
     """Storage object that keeps the index in memory.
     """
@@ -628,7 +644,7 @@ class RamStorage(Storage):
 
     def lock(self, name):
         if name not in self.locks:
-            self.locks[name] = Lock()
+            self.locks[name] = RamLock()
         return self.locks[name]
 
     def temp_storage(self, name=None):
